@@ -21,7 +21,7 @@ import (
 
 func init() {
 	register("C14", propDef{
-		header:     "From KV Require Import Corr.C14.\nOpen Scope string_scope.\n",
+		header:     "From KV Require Import Yaml.NodeApi Corr.C14.\nOpen Scope string_scope.\n",
 		caseType:   "case14",
 		mismatchFn: "mismatches14",
 		run:        runC14,
@@ -292,6 +292,7 @@ type case14 struct {
 	Value  *vspec     `json:"value,omitempty"`
 	Value2 *vspec     `json:"value2,omitempty"` // second value for the last-write-wins law (put)
 	FS     *fsSpec    `json:"fs,omitempty"`     // field spec (op fieldspec)
+	API    *apiSpec   `json:"api,omitempty"`    // node-API operation (c14_api.go)
 	FSL    []*fsSpec  `json:"fsl,omitempty"`    // field specs of an fsslice.Filter (op fsslice); FSL[0] == FS
 	Probes [][]string `json:"probes,omitempty"` // frame probes (paths q) recorded for replay
 }
@@ -311,6 +312,10 @@ func kindOf(s string) int {
 
 // exec14On runs the operation on the given document object (mutating it).
 func exec14On(doc *kyaml.RNode, c case14) (cls string, found *kyaml.RNode, msg string) {
+	if apiOps[c.Op] {
+		cls, found, _, msg = execAPI14(doc, c)
+		return cls, found, msg
+	}
 	cls, msg = protect14(func() error {
 		var e error
 		switch c.Op {
@@ -780,6 +785,9 @@ func laws14doc(s sink, c case14, d *docCtx14, probes []probe14) (cls string, got
 	case "fsslice":
 		return lawsFSSlice14(s, c, d)
 	case "lookup":
+		lawPM14(s, c, d)
+		fallthrough
+	case "lookup-only":
 		// C14_lookup_pure (checked by the deferred comparison), no panic
 		cls, found, msg := lookupOn(d.orig, c.Path)
 		if cls == ClsPanic {
@@ -832,6 +840,9 @@ func laws14doc(s sink, c case14, d *docCtx14, probes []probe14) (cls string, got
 			return "", false
 		}
 		return lawsPut14(s, c, d, probes)
+	}
+	if apiOps[c.Op] {
+		return lawsAPI14(s, c, d)
 	}
 	return "", false
 }
@@ -953,6 +964,10 @@ func lawsPut14(s sink, c case14, d *docCtx14, probes []probe14) (string, bool) {
 }
 
 func caseTerm14(c case14, cls string, doc, found *kyaml.RNode) (string, bool) {
+	return caseTermObs14(c, cls, doc, found, "ObNone")
+}
+
+func caseTermObs14(c case14, cls string, doc, found *kyaml.RNode, obs string) (string, bool) {
 	origDoc, err := kyaml.Parse(c.Doc)
 	if err != nil {
 		return "", false
@@ -994,6 +1009,15 @@ func caseTerm14(c case14, cls string, doc, found *kyaml.RNode) (string, bool) {
 		op = coqSliceOp14(c.FSL)
 		vals["MARK"] = true
 		vals["MV"] = true
+	default:
+		if apiOps[c.Op] {
+			var ok bool
+			op, ok = c.API.coqOp(c.Op)
+			if !ok {
+				return "", false
+			}
+			c.API.scalarTexts(vals)
+		}
 	}
 	nonstr := []string{}
 	for _, s := range sortedKeys(vals) {
@@ -1016,7 +1040,11 @@ func caseTerm14(c case14, cls string, doc, found *kyaml.RNode) (string, bool) {
 			found2 = "(Some " + f + ")"
 		}
 	}
-	return fmt.Sprintf("(mk14 %s %s %s %s %s %s %s)", op, coqStrList(c.Path), d0, cls, after, found2, coqStrList(nonstr)), true
+	if cls != ClsOk {
+		obs = "ObNone"
+	}
+	return fmt.Sprintf("(mk14 %s %s %s %s %s %s %s %s %s)", op, coqStrList(c.Path), d0, cls, after, found2, coqStrList(nonstr),
+		obs, coqStrList(floatTexts(vals))), true
 }
 
 // genProbes14: frame probes for a random put: paths that leave the write path at one position
@@ -1053,7 +1081,7 @@ func genProbes14(g *Rng, full []string) [][]string {
 }
 
 func runC14(r *Run, rng *Rng, tier string) error {
-	nModel, nLaw, nFS, nFSLaw := 1100, 5000, 600, 3000
+	nModel, nLaw, nFS, nFSLaw := 900, 4000, 500, 2500
 	if tier == "thorough" {
 		nModel, nLaw, nFS, nFSLaw = 9000, 100000, 4000, 40000
 	}
@@ -1107,6 +1135,19 @@ func runC14(r *Run, rng *Rng, tier string) error {
 			runOne14(r, genFSCase14(rng.Fork()), true)
 		}
 	}
+	nAPI := 700
+	if tier == "thorough" {
+		nAPI = 8000
+	}
+	for i := 0; i < nAPI; i++ {
+		runOne14(r, genAPICase14(rng.Fork()), true)
+	}
+	for i := 0; i < 4*nAPI; i++ { // law oracles only
+		g := rng.Fork()
+		c := genAPICase14(g)
+		runOne14(r, c, false)
+		lawSplit14(r, c, g)
+	}
 	for i := 0; i < nLaw; i++ {
 		g := rng.Fork()
 		c := gen(g)
@@ -1139,6 +1180,12 @@ func runOne14(r *Run, c case14, toModel bool) {
 		r.Meta.Skipped++
 		return
 	}
+	obs := "ObNone"
+	if apiOps[c.Op] {
+		d2, _ := kyaml.Parse(c.Doc)
+		cls, found, obs, _ = execAPI14(d2, c)
+		doc = d2
+	}
 	r.Count("op", c.Op)
 	r.Count("class/"+c.Op, cls)
 	if c.Op == "fieldspec" {
@@ -1157,11 +1204,11 @@ func runOne14(r *Run, c case14, toModel bool) {
 	if toModel {
 		cm := c
 		cm.Probes = nil
-		term, ok := caseTerm14(c, cls, doc, found)
+		term, ok := caseTermObs14(c, cls, doc, found, obs)
 		if !ok {
 			r.Meta.Skipped++
 		} else {
-			r.AddCase(term, cm, nontrivial)
+			r.AddCase(term, cm, nontrivial || (apiOps[c.Op] && cls == ClsOk && obs != "ObNone" && obs != "ObNotFound"))
 		}
 	} else {
 		b, _ := json.Marshal(c)
